@@ -265,6 +265,44 @@ def run_case(ctx, case):
         learn = lambda: cobj.perform_classification_dimension_wise(masslumping=lk["ml"], lambd=lk["lambd"], minimum_level=1, maximum_level=lk["lmax"],
                                                                    max_evaluations=lk["evals"], reuse_old_values=lk["reuse"], rebalancing=lk["rebal"],
                                                                    tolerance=lk.get("tol", 0.01), print_metrics=False)
+    if lk["mode"] != "std" and case.get("learn_fault"):
+        # history with a fault at a particular point: the first learning attempt uses a user error calculator that fails at its LAST invocation (counted on a
+        # twin object), i.e. while the last class is being learned; the caller catches the failure and learns again on the same object.  Everything below is then
+        # judged on the object as it is after the retry (missed seed C19_9: density estimates of the aborted attempt stayed in the object)
+        from sparseSpACE.ErrorCalculator import ErrorCalculatorSingleDimVolumeGuided
+        from bounded._drivers_common import ModelFault
+
+        class Counting(ErrorCalculatorSingleDimVolumeGuided):
+            def __init__(self, k):
+                super().__init__()
+                self.n, self.k = 0, k
+
+            def calc_error(self, *a_, **kw_):
+                self.n += 1
+                if self.n == self.k:
+                    raise ModelFault("error calculator failed at invocation %d" % self.k)
+                return super().calc_error(*a_, **kw_)
+        learn_with = lambda obj, ec: obj.perform_classification_dimension_wise(masslumping=lk["ml"], lambd=lk["lambd"], minimum_level=1, maximum_level=lk["lmax"],  # noqa
+                                                                             max_evaluations=lk["evals"], reuse_old_values=lk["reuse"], rebalancing=lk["rebal"],
+                                                                             tolerance=lk.get("tol", 0.01), print_metrics=False, error_calculator=ec)
+        total = None
+        try:
+            np.random.seed(case["np_seed"])
+            twin = Classification(DataSet((X.copy(), y.copy()), name="S"), split_percentage=case["p"], split_evenly=case["even"], shuffle_data=case["shuffle"], **kw)
+            cnt = Counting(0)
+            with capture():
+                learn_with(twin, cnt)
+            total = cnt.n
+        except Exception:  # noqa  (a configuration that cannot learn at all is judged by the regular attempt below)
+            total = None
+        if total:
+            try:
+                with capture():
+                    learn_with(cobj, Counting(total))
+            except ModelFault:
+                pass
+            except Exception:  # noqa
+                pass
     ok, _, _ = guarded(ctx, d, "B.learn.completes", M + ("perform_classification" if lk["mode"] == "std" else "perform_classification_dimension_wise"),
                        "learning-raises", learn)
     if not ok:
@@ -585,6 +623,10 @@ def directed():
     for k, (dd, K, sep) in enumerate([(2, 2, "overlap"), (2, 3, "overlap"), (3, 2, "overlap"), (1, 2, "overlap"), (2, 2, "separated")]):
         lrn = {"mode": "dim", "lmax": 2, "ml": k % 2 == 0, "lambd": 0.01, "evals": 20, "reuse": k == 1, "rebal": k == 2, "tol": 0.0}
         out.append(dict(base, d=dd, K=K, n=[30, 26, 28][:K], sep=sep, seed=100 + k, p=0.6, unl=False, seq=refine_seq, learn=lrn))
+        if k in (0, 1):     # the first learning attempt fails while the last class is learned; the caller learns again on the same object
+            out.append(dict(base, d=dd, K=K, n=[30, 26, 28][:K], sep=sep, seed=300 + k, p=0.6, unl=False, learn=lrn, learn_fault=True,
+                            seq=[{"op": "evaluate"}, {"op": "call", "where": "in", "m": 8, "unl": False, "qseed": 35}, {"op": "test", "where": "part", "m": 8, "unl": True, "qseed": 36, "print": False},
+                                 {"op": "evaluate"}]))
         if k < 3:   # refinement directly after learning: the held-out testing data were classified once with the coarse estimators
             out.append(dict(base, d=dd, K=K, n=[30, 26, 28][:K], sep=sep, seed=200 + k, p=0.5, unl=False, learn=lrn,
                             seq=[{"op": "evaluate"}, {"op": "refine", "evals": 150}, {"op": "evaluate"}, {"op": "call", "where": "in", "m": 8, "unl": False, "qseed": 34},
